@@ -267,7 +267,7 @@ def build_program(dev_stmts, g, draw=None):
 
 @st.composite
 def cases(draw, switches):
-    fg = full.FullGen(draw, switches, operand_depth=draw(st.integers(0, 2)), device_fn=False, arrays=True)
+    fg = full.FullGen(draw, switches, operand_depth=draw(st.integers(0, 2)), temp_bias=draw(st.sampled_from([0, 2, 3, 5])), device_fn=False, arrays=True)
     n = draw(st.integers(1, 3))
     stmts = []
     forms = []
@@ -373,3 +373,7 @@ def plan(tier, seed, switches):
     if tier == "quick":
         return [("enumerate_forms", [dict(switches=switches)]), ("campaign", [dict(seed=seed * 100 + k, n=1000, switches=switches) for k in range(4)])]
     return [("enumerate_forms", [dict(switches=switches)]), ("campaign", [dict(seed=seed * 1000 + k, n=2200, switches=switches) for k in range(15)])]
+
+
+def evidence_extra(stats):
+    return {"exhaustive_part": "every device-statement form of the table is enumerated once with literal operands on every run"}
